@@ -7,7 +7,7 @@ from .. import adapters, core, family, operators, soup
 from ..draw import composite
 
 RULE = ("files: members of the conforming/violating families, stacked variants (2-4 operators on one file, several diagnostics per line), "
-        "files with lexical diagnostics carrying several highlights, bad lexemes and non-ASCII characters, 1-3 files per report; ALL files of <= 3 (thorough: 4) "
+        "files with lexical diagnostics carrying several highlights, bad lexemes and non-ASCII characters, files with a diagnostic at column 90..10 000 followed by diagnostics on later lines, 1-3 files per report; ALL files of <= 3 (thorough: 4) "
         "symbols over a 12-symbol alphabet under a .c and a .h name; oracle: "
         "every diagnostic has a catalogue code with exactly the catalogue text, level Error|Notice, >=1 highlight, 1 <= line <= number of "
         "lines, 1 <= column <= visual width of that line + 1; printed positions ascend; the JSON report parses and lists the same files, verdicts and diagnostics in the same "
@@ -42,7 +42,7 @@ def report_case(d):
     nfiles = d.weighted([(6, 1), (2, 2), (1, 3)])
     files = []
     for k in range(nfiles):
-        kind = d.weighted([(3, "member"), (4, "stacked"), (3, "lexical")])
+        kind = d.weighted([(6, "member"), (8, "stacked"), (6, "lexical"), (1, "wide")])
         if kind == "member":
             p = family.member_of(d, violating=0.8)
             files.append((p.name, p.text, kind))
@@ -66,6 +66,16 @@ def report_case(d):
                 except Exception:
                     pass
             files.append((p.name, q.text, kind))
+        elif kind == "wide":
+            # diagnostics at very large columns (no limit on the length of a line is documented) followed by others on later lines
+            base = family.member_of(d, violating=0.0, ftype="c")
+            lines = base.text.split("\n")
+            ins = d.int(12, max(12, len(lines) - 1))
+            w = d.weighted([(3, d.int(985, 1015)), (2, d.int(1016, 4000)), (1, d.int(9990, 10010)), (1, d.int(90, 984))])
+            pad = d.choice(["x" * w, "\t" * (w // 4), "(" * (w // 2) + "1" + ")" * (w // 2), "/* " + "c" * w + " */"])
+            wide = "\t" + pad + d.choice(["=1;", "+'ab';", " @", ",0b12;"])
+            lines[ins:ins] = [wide] + [d.choice(LEXICAL).rstrip("\n") for _ in range(d.int(1, 2))]
+            files.append((base.name, "\n".join(lines), kind))
         else:
             base = family.member_of(d, violating=0.0, ftype="c")
             lines = base.text.split("\n")
